@@ -11,7 +11,7 @@ from ..refs import hashes_ref, hll_ref
 
 ID = "C02"
 LEVEL = "exploration"
-TECHNIQUE = "lock-step reference model (registers recomputed from the ghost key set with an independent FastHash64 + rank) evaluated after every event, plus fresh-sketch differential at quiescent points; exhaustive permutations/partitions of small key sets; crafted seeds reaching every rank"
+TECHNIQUE = "lock-step reference model (registers recomputed from the ghost key set with an independent FastHash64 + rank) evaluated after every event, plus fresh-sketch differential at quiescent points; exhaustive permutations/partitions of small key sets; crafted seeds reaching every rank; thread stress with long kernel calls (8 threads pushing 30 kB documents into one sketch, and threads filling their own sketches, compared with sequentially built sketches)"
 RULE = ("case = (p, seed, number of sketches, event list) where events are add/update/add_ngram/update_ngram on one of up to 5 "
         "sketches or merge(dst, src) (incl. repeated and self merges), followed by a random merge tree; or an exhaustive "
         "enumeration of all orderings and 2-way partitions of a small key set; or a crafted (key, seed) pair that drives the "
@@ -429,6 +429,10 @@ def run_bigkeys(case, ctx, mon):
 
 def gen_cases(ctx):
     rng = ctx.rng("cases")
+    # long documents from 8 threads into ONE sketch, and threads filling their own sketches (vmon/thread_common.py; round 8, seed C02-N)
+    for rep in range(2 if ctx.quick else 6):
+        yield {"type": "threads_long", "threads": 8, "p": 7 if rep % 2 == 0 else 9, "hll_seed": rep, "seed": 6000 + rep + 17 * ctx.shard}
+    yield {"type": "threads_own", "kind": "hll", "threads": 6, "seed": 7000 + ctx.shard}
     yield {"type": "bigkeys", "seed": pick(rng, [0, 7]), "ps": [12, 16, 9], "lengths": [65535, 65536, 70001, 200000], "doc_len": 66000 + int(rng.integers(0, 9)), "docs": 7,
            "ngram": pick(rng, [3, 4, 7]), "stream": int(rng.integers(0, 2**31))}
     for rep in range(3 if ctx.quick else 8):
@@ -448,7 +452,11 @@ def gen_cases(ctx):
 
 def run_case(case, ctx, mon):
     t = case["type"]
-    if t == "threads":
+    if t in ("threads_long", "threads_own"):
+        from .. import thread_common
+
+        (thread_common.run_shared_hll if t == "threads_long" else thread_common.run_own_sketches)(case, mon)
+    elif t == "threads":
         run_threads(case, ctx, mon)
     elif t == "history":
         run_history(case, ctx, mon)
